@@ -1,1 +1,78 @@
-// harnesses for this module (included by the isomer_erbium_verif hook)
+// Kani harnesses for crates/erbium-core/src/dns/router.rs (C15: longest suffix wins, order independent).
+#[cfg(kani)]
+mod k {
+    use super::super::*;
+    use crate::dns::config::{Handler, Route};
+    use crate::dns::dnspkt::*;
+    include!(concat!(env!("ISOMER_ERBIUM_VERIF_DIR"), "/_common.rs"));
+    include!(concat!(env!("ISOMER_ERBIUM_VERIF_DIR"), "/_async.rs"));
+
+    fn lbl(b: &[u8]) -> Label {
+        Label::from(b.to_vec())
+    }
+    fn dom(ls: &[&[u8]]) -> Domain {
+        Domain::from(ls.iter().map(|l| lbl(l)).collect::<Vec<_>>())
+    }
+
+    fn query(qdomain: Domain, rd: bool) -> crate::dns::DnsMessage {
+        use erbium_net::addr::WithPort as _;
+        crate::dns::DnsMessage {
+            in_query: DNSPkt {
+                qid: 1,
+                rd,
+                tc: false,
+                aa: false,
+                qr: false,
+                opcode: OPCODE_QUERY,
+                cd: false,
+                ad: false,
+                ra: false,
+                rcode: NOERROR,
+                bufsize: 512,
+                edns_ver: None,
+                edns_do: false,
+                question: Question { qdomain, qclass: CLASS_IN, qtype: RR_A },
+                answer: vec![],
+                nameserver: vec![],
+                additional: vec![],
+                edns: None,
+            },
+            in_size: 30,
+            local_ip: std::net::IpAddr::V4(std::net::Ipv4Addr::LOCALHOST),
+            remote_addr: std::net::Ipv4Addr::LOCALHOST.with_port(1234),
+            protocol: crate::dns::Protocol::Udp,
+        }
+    }
+
+    fn handler(routes: Vec<Route>) -> DnsRouteHandler {
+        let mut conf = crate::config::Config::default();
+        conf.dns_routes = routes;
+        DnsRouteHandler {
+            conf: std::sync::Arc::new(tokio::sync::RwLock::new(conf)),
+            next: crate::dns::cache::CacheHandler::verif_inert(),
+        }
+    }
+
+    // Stub for the next handler in the chain (cache -> upstream sockets): the route decision is what is
+    // under test; which upstream receives the query is outside this check.
+    async fn next_stub(_s: &crate::dns::cache::CacheHandler, _msg: &crate::dns::DnsMessage, addr: std::net::SocketAddr) -> Result<DNSPkt, Error> {
+        Err(Error::Denied(if addr.port() == 53 { String::new() } else { String::new() }))
+    }
+
+    /// VERIF: {"p":"C15","tier":"quick","fns":["dns::router::DnsRouteHandler::handle_query","dns::dnspkt::Domain::ends_with","dns::dnspkt::compare_longest_suffix"],"bounds":"probe","oracle":"probe","stubs":["std::hash::RandomState::new -> fixed keys"],"covers":1,"unwind":6}
+    #[kani::proof]
+    #[kani::unwind(6)]
+    #[kani::stub(std::hash::RandomState::new, fixed_random_state)]
+    #[kani::stub(crate::dns::cache::CacheHandler::handle_query, next_stub)]
+    fn c15_router_probe() {
+        let routes = vec![
+            Route { suffixes: vec![dom(&[])], dest: Handler::Forward(vec![]) },
+            Route { suffixes: vec![dom(&[b"b", b"ex"])], dest: Handler::ForgeNxDomain },
+        ];
+        let h = handler(routes);
+        let msg = query(dom(&[b"a", b"b", b"ex"]), false);
+        let r = poll_once(h.handle_query(&msg));
+        kani::cover!(true, "reached");
+        assert!(matches!(r, Some(Err(Error::Blocked))), "forge-nxdomain route wins");
+    }
+}
